@@ -366,7 +366,7 @@ func runPackage(u *vk.Unit, p *reg.Package, meta Meta, pkg string) {
 				if !ok {
 					continue
 				}
-				f := exchange(u, p, m, cm, b.args, b.resp, class, &st, pkg)
+				f := explainFromDoc(exchange(u, p, m, cm, b.args, b.resp, class, &st, pkg), meta.Doc, m.Name)
 				if f != nil {
 					if f.Classifier == "harness" {
 						u.T.Errorf("HARNESS: %s", f.What)
@@ -672,7 +672,8 @@ func exchange(u *vk.Unit, p *reg.Package, m reg.Method, cm reflect.Value, args [
 		}
 		cl := "response-silent-change"
 		switch {
-		case strings.Contains(where, ": float ") && !strings.Contains(where, ".Response"):
+		case strings.Contains(where, ": float ") && !strings.Contains(where, ".Response") && hasResponseField(resp):
+			// a header field of a response wrapper (a response type without a Response field is the body itself)
 			cl = "conv-float-precision10"
 		case strings.Contains(where, ": float ") && valgen.FloatNear(where):
 			cl = "float64-json-decode-off-by-one-ulp"
@@ -784,6 +785,10 @@ func whitespaceOnlyDifference(a, b reflect.Value) bool {
 			}
 			return true
 		case reflect.Slice, reflect.Array:
+			if x.Kind() == reflect.Slice && x.Type().Elem().Kind() == reflect.Uint8 {
+				// byte strings travel as header text too
+				return norm(string(x.Bytes())) == norm(string(y.Bytes()))
+			}
 			if x.Len() != y.Len() {
 				return false
 			}
@@ -806,4 +811,108 @@ func whitespaceOnlyDifference(a, b reflect.Value) bool {
 		}
 	}
 	return eq(a, b, 0)
+}
+
+// hasResponseField: the response type is a wrapper (headers / status code around a Response member).
+func hasResponseField(v reflect.Value) bool {
+	for v.IsValid() && (v.Kind() == reflect.Pointer || v.Kind() == reflect.Interface) {
+		if v.IsNil() {
+			return false
+		}
+		v = v.Elem()
+	}
+	if !v.IsValid() || v.Kind() != reflect.Struct {
+		return false
+	}
+	_, ok := v.Type().FieldByName("Response")
+	return ok
+}
+
+var (
+	decodeFieldRe = regexp.MustCompile(`decode field "([^"]+)"`)
+	whereFieldRe  = regexp.MustCompile(`(?:differs|difference) at ((?:\.[A-Za-z0-9_]+)+)`)
+)
+
+func alnumLower(s string) string {
+	return strings.ToLower(strings.Map(func(r rune) rune {
+		if r >= 'a' && r <= 'z' || r >= 'A' && r <= 'Z' || r >= '0' && r <= '9' {
+			return r
+		}
+		return -1
+	}, s))
+}
+
+// explainFromDoc names two root causes that only the document shows (the oracle has already
+// decided; nothing becomes a pass here):
+//   - exploded form objects in the query whose member names also occur as another query
+//     parameter or as a member of another exploded object: all of them are written as plain
+//     name=value pairs, the receiver cannot tell them apart (the named member must be the one
+//     that differs / fails to decode);
+//   - a response wrapper type shared through the body component with a response of another
+//     shape: the Go type has a header field that this operation does not declare (the field that
+//     differs must be such a field).
+func explainFromDoc(f *vk.Finding, doc specgen.Doc, opName string) *vk.Finding {
+	if f == nil {
+		return nil
+	}
+	var op *specgen.Operation
+	for i := range doc.Ops {
+		if alnumLower(doc.Ops[i].ID) == alnumLower(opName) {
+			op = &doc.Ops[i]
+		}
+	}
+	if op == nil {
+		return f
+	}
+	switch f.Classifier {
+	case "silent-change", "core-value-not-delivered":
+		count := map[string]int{}
+		for _, p := range op.Params {
+			if p.In != "query" || p.Content != "" {
+				continue
+			}
+			sch := doc.Components.Resolve(p.Schema)
+			exploded := (p.Style == "" || p.Style == "form") && (p.Explode == nil || *p.Explode)
+			if sch != nil && sch.Type == "object" && exploded {
+				for _, pr := range sch.Props {
+					count[alnumLower(pr.Name)]++
+				}
+			} else {
+				count[alnumLower(p.Name)]++
+			}
+		}
+		member := ""
+		if m := decodeFieldRe.FindStringSubmatch(f.What); m != nil && f.Classifier == "core-value-not-delivered" {
+			member = alnumLower(m[1])
+		} else if m := whereFieldRe.FindStringSubmatch(f.What); m != nil && f.Classifier == "silent-change" {
+			parts := strings.Split(strings.TrimPrefix(m[1], "."), ".")
+			for _, pt := range parts[1:] {
+				if pt != "Value" {
+					member = alnumLower(pt)
+					break
+				}
+			}
+		}
+		if member != "" && count[member] >= 2 {
+			return vk.F("exploded-query-objects-share-member-name", "%s", f.What)
+		}
+	case "response-silent-change":
+		m := whereFieldRe.FindStringSubmatch(f.What)
+		if m == nil {
+			return f
+		}
+		field := strings.Split(strings.TrimPrefix(m[1], "."), ".")[0]
+		if field == "Response" || field == "StatusCode" {
+			return f
+		}
+		for _, r := range op.Responses {
+			for _, h := range r.Headers {
+				if alnumLower(h.Name) == alnumLower(field) {
+					return f
+				}
+			}
+		}
+		return vk.F("response-wrapper-type-shared-through-body-component", "%s", f.What)
+	}
+	return f
 }
